@@ -114,7 +114,9 @@ static vf::Verdicts eval(const Spec &s, vf::Ctx &ctx) {
     CallResult r = runStage(c, stage, params, cb);
     ctx.count("fault_runs");
     if (k >= 0 && !r.threw) add("callback-exception-swallowed", std::string(stageName[stage]) + " fault at #" + std::to_string(k));
-    if (k >= 0 && r.threw && r.what != "callback fault") add("callback-exception-replaced", r.what);
+    // the call must end by the callback's exception (a wrapper that keeps its message is fine); an exception with another
+    // message means the library raised an error of its own while the callback's fault was in flight
+    if (k >= 0 && r.threw && r.what.find("callback fault") == std::string::npos) add("callback-exception-replaced", r.what);
     // the call has ended: modifications are accepted again, the circuit is consistent
     std::string refused = settersAfter(c);
     if (!refused.empty())
